@@ -458,10 +458,16 @@ def dea_cap(ctx, ex):
         probe(DV({('s', k)}, 'f'))
         before.append({a: v for a, v in probe.attrs.items() if isinstance(v, int) and not isinstance(v, bool)})
     fill = [a for a in before[1] if before[0].get(a) == 1 and before[1].get(a) == 2]
-    tables = [a for a, v in probe.attrs.items() if isinstance(v, Arr) and v.ndim == 1]
-    if len(fill) != 1 or len(tables) != 1:
-        raise AnalysisError('anchor vanished: the fill index / the table of Dea (candidates %r, %d arrays)' % (fill, len(tables)))
-    fill, table = fill[0], tables[0]
+    # the table: the public attribute `epstab` of the property record (an attribute or a property), else the one 1-d array
+    try:
+        probe_table = probe.interp.getattr(probe, 'epstab')
+        table = None if isinstance(probe_table, Arr) and probe_table.ndim == 1 else 0
+    except (AnalysisError, InterpRaise):
+        tables = [a for a, v in probe.attrs.items() if isinstance(v, Arr) and v.ndim == 1]
+        table = tables[0] if len(tables) == 1 else 0
+    if len(fill) != 1 or table == 0:
+        raise AnalysisError('anchor vanished: the fill index / the table of Dea (candidates %r)' % (fill,))
+    fill = fill[0]
     for limexp in (3, 5) if ctx.tier == 'quick' else (3, 4, 5, 7):
         nterms = 2 * limexp + 6
         exr = Explorer(max_paths=512, by_value=False)
@@ -476,7 +482,8 @@ def dea_cap(ctx, ex):
             for k in range(nterms):
                 obj(DV({('s', k)}, 'f'))
                 trace.append(obj.attrs[fill])
-            return trace, obj.attrs[table].shape[0]
+            tab = I.getattr(obj, 'epstab') if table is None else obj.attrs[table]
+            return trace, tab.shape[0]
         exr.run(body)
         raised = []
         over = []
